@@ -193,8 +193,15 @@ func checkC24(c *Ctx) *report.Result {
 		}
 	}
 	// N3
-	writes, stores := findSharedWrites(c)
+	writes, unresolvedStores, stores := findSharedWrites(c)
 	r.Instances["N3"] += stores
+	seenU := map[string]bool{}
+	for _, u := range unresolvedStores {
+		if key := fnName(u.Fn); !seenU[key] {
+			seenU[key] = true
+			r.Fail("undecided", "N3", "store through an unresolved pointer in "+key, c.pos(u.At), "the target of this store cannot be resolved to an allocation site, so it may be memory that survives a run (for example a value taken out of a package-level map)")
+		}
+	}
 	r.Obligations++
 	seen := map[string]bool{}
 	for _, w := range writes {
